@@ -12,7 +12,7 @@
 
 #define MAXBLK 1100
 static uint8_t KEYS[2][48];
-static uint8_t in_[MAXBLK * 16 + 64], out_[3][MAXBLK * 16 + 64], exp_[MAXBLK * 16 + 64], tw_[MAXBLK * 8 + 64], tmp_[MAXBLK * 16 + 64];
+static uint8_t in_[MAXBLK * 16 + 64] __attribute__((aligned(32))), out_[3][MAXBLK * 16 + 64] __attribute__((aligned(32))), exp_[MAXBLK * 16 + 64], tw_[MAXBLK * 8 + 64] __attribute__((aligned(32))), tmp_[MAXBLK * 16 + 64] __attribute__((aligned(32)));
 
 typedef struct { Cipher c; int klen, rounds, mode, ki; } KeyCfg;
 
@@ -102,25 +102,33 @@ static void c07_case(const KeyCfg *k, int be, int nblk, int dir, int family, int
     }
     rk = par_set_key(k->c, &o, KEYS[k->ki], (unsigned)k->klen, (unsigned)k->rounds, k->mode ? MANTIS_DECRYPT : MANTIS_ENCRYPT);
     if (rk != 1) { violation("C07/set_key-rejected", cd, "%s: set_key returned %d", kd, rk); par_cleanup(k->c, &o); return; }
-    fill_data(in_, n, family, bs);
-    lcg_fill(tw_, (size_t)nblk * 8 + 8, 555 + (uint32_t)family);
-    single_blocks(k, dir, in_, tw_, exp_, nblk);
-    memset(out_[0], 0xEE, n + 16);
-    if (inplace) { memcpy(out_[0], in_, n); r = par_crypt(k->c, &o, out_[0], out_[0], tw_, n, dir); }
-    else r = par_crypt(k->c, &o, out_[0], in_, tw_, n, dir);
-    out_digest("parallel-output", out_[0], n); out_digest("parallel-return", &r, sizeof(r));
-    if (nblk > 0 && memcmp(out_[0], in_, n) != 0) distinct_add_u64(fnv1a(out_[0], n, fnv1a(cd, strlen(cd), FNV_INIT)));
+    {
+    /* placement: the first data family runs on 32-byte aligned buffers, the others on buffers whose
+     * offsets from such a boundary walk through 1..15 with the case parameters (C09 is the check
+     * for alignment as such; this only keeps C07 from assuming one placement) */
+    size_t ioff = family ? (size_t)((nblk * 7 + family * 3 + dir) & 15) : 0, ooff = family ? (size_t)((nblk * 5 + family + 2 * dir + 1) & 15) : 0,
+           toff = family ? (size_t)((nblk + family) & 7) : 0;
+    uint8_t *in = in_ + ioff, *out = out_[0] + ooff, *tw = tw_ + toff;
+    fill_data(in, n, family, bs);
+    lcg_fill(tw, (size_t)nblk * 8 + 8, 555 + (uint32_t)family);
+    single_blocks(k, dir, in, tw, exp_, nblk);
+    memset(out_[0], 0xEE, n + 48);
+    if (inplace) { memcpy(out, in, n); r = par_crypt(k->c, &o, out, out, tw, n, dir); }
+    else r = par_crypt(k->c, &o, out, in, tw, n, dir);
+    out_digest("parallel-output", out, n); out_digest("parallel-return", &r, sizeof(r));
+    if (nblk > 0 && memcmp(out, in, n) != 0) distinct_add_u64(fnv1a(out, n, fnv1a(cd, strlen(cd), FNV_INIT)));
     if (r != 1) {
         snprintf(sig, sizeof(sig), "C07/%s/%s/return-value", cipher_name(k->c), be_name(be));
         violation(sig, cd, "%s, %d blocks: returned %d", kd, nblk, r);
-    } else if (memcmp(out_[0], exp_, n) != 0) {
-        size_t d = 0; while (d < n && out_[0][d] == exp_[d]) ++d;
+    } else if (memcmp(out, exp_, n) != 0) {
+        size_t d = 0; while (d < n && out[d] == exp_[d]) ++d;
         snprintf(sig, sizeof(sig), "C07/%s/%s/%s", cipher_name(k->c), be_name(be), dir ? "decrypt" : "encrypt");
-        violation(sig, cd, "%s on %s, %d blocks%s: differs from block-by-block at byte %zu (block %zu): got %02x expected %02x",
-                  kd, be_name(be), nblk, inplace ? " in-place" : "", d, d / (size_t)bs, out_[0][d], exp_[d]);
-    } else if (!inplace && (out_[0][n] != 0xEE || out_[0][n + 7] != 0xEE)) {
+        violation(sig, cd, "%s on %s, %d blocks%s (input at +%zu, output at +%zu from a 32-byte boundary): differs from block-by-block at byte %zu (block %zu): got %02x expected %02x",
+                  kd, be_name(be), nblk, inplace ? " in-place" : "", inplace ? ooff : ioff, ooff, d, d / (size_t)bs, out[d], exp_[d]);
+    } else if (!inplace && (out[n] != 0xEE || out[n + 7] != 0xEE || (ooff && out[-1] != 0xEE))) {
         snprintf(sig, sizeof(sig), "C07/%s/%s/overrun", cipher_name(k->c), be_name(be));
-        violation(sig, cd, "wrote past the end of the output");
+        violation(sig, cd, "wrote outside the output");
+    }
     }
     par_cleanup(k->c, &o);
 }
@@ -429,6 +437,7 @@ static void body(void)
 int main(int argc, char **argv)
 {
     parse_opts(argc, argv);
+    run_prelude();
     if (!g_opts.sub) engine_error("--sub required");
     return mc_guarded_main(body);
 }
